@@ -91,10 +91,20 @@ def run(ck):
           guard(lambda t: t.replace(" ", "") in ("%s.size!=%s.size" % (dp, sp), "%s.size!=%s.size" % (sp, dp))), m.where(fn),
           "the store into the assignment table is not dominated by `dst.size != src.size -> raise`")
     key = norm([t for t in st.ast.targets if isinstance(t, ast.Subscript)][0].slice)
-    ck.ob("R1", "AssignBlock._set:destination-kind-guard",
-          guard(lambda t: t.startswith("not isinstance(%s, " % key) and "ExprId" in t and "ExprMem" in t and "ExprSlice" not in t and "ExprOp" not in t)
-          or guard(lambda t: t.startswith("isinstance(%s, " % key) and "ExprId" in t and "ExprMem" in t), m.where(fn),
-          "the stored destination `%s` is not tested to be an ExprId or ExprMem before the store" % key)
+    kind_ok = False
+    for did in dom:
+        dn = cfg.nodes[did]
+        if dn.kind == "test" and isinstance(dn.ast, ast.Call) and callee_attr(dn.ast) == "isinstance" and len(dn.ast.args) == 2 \
+                and norm(dn.ast.args[0]) == key:
+            classes = dn.ast.args[1].elts if isinstance(dn.ast.args[1], ast.Tuple) else [dn.ast.args[1]]
+            names = set((c.attr if isinstance(c, ast.Attribute) else getattr(c, "id", "?")) for c in classes)
+            f_succ = [x for (x, l) in cfg.succ[did] if l is False]
+            t_succ = [x for (x, l) in cfg.succ[did] if l is True]
+            raises = bool(f_succ) and cfg.nodes[f_succ[0]].kind == "stmt" and isinstance(cfg.nodes[f_succ[0]].ast, ast.Raise)
+            if names == set(["ExprId", "ExprMem"]) and raises and t_succ and (t_succ[0] == st.id or cfg.can_reach(t_succ[0], st.id)):
+                kind_ok = True
+    ck.ob("R1", "AssignBlock._set:destination-kind-guard", kind_ok, m.where(fn),
+          "the stored destination `%s` is not tested to be exactly an ExprId or ExprMem (else raise) before the store" % key)
     # slice completion
     ok = False
     for n in walk_body(fn):
